@@ -356,4 +356,58 @@ def standin_vendor_counts(tier, seed):
                 cases=cases, distinct=cases, failures=len(fails), exhaustive=False, _fails=fails[:3])
 standin_vendor_counts.prop = "C18"
 
-STANDINS = [standin_views, standin_numpy_digits, standin_state_histogram, standin_large_results, standin_packed_storage, standin_sample_frames, standin_batches, standin_vendor_counts]
+def standin_run_record_shapes(tier, seed):
+    """the records a simulator's run hands back for deterministic circuits with keys measured several times (all of them terminal, or followed by
+    one more operation): shape (repetitions, instances, qubits) for 0..5 repetitions, every entry the prepared digit, the same through run_sweep and
+    as the concatenation of single-repetition runs"""
+    import itertools
+
+    import cirq
+
+    F_ = "cirq-core/cirq/sim/simulator.py:SimulatesSamples.run_sweep_iter / StepResult.sample_measurement_ops"
+    q = cirq.LineQubit.range(3)
+    sims = [("Simulator", lambda: cirq.Simulator(seed=1)), ("DensityMatrixSimulator", lambda: cirq.DensityMatrixSimulator(seed=1)), ("CliffordSimulator", lambda: cirq.CliffordSimulator(seed=1))]
+    layouts = {
+        "one key on two different qubits": ([cirq.X(q[1])], [cirq.measure(q[0], key="a"), cirq.measure(q[1], key="a")], {"a": [[0], [1]]}),
+        "one key three times, two qubits each": ([cirq.X(q[1])], [cirq.measure(q[0], q[1], key="a"), cirq.measure(q[1], q[2], key="a"), cirq.measure(q[1], q[0], key="a")], {"a": [[0, 1], [1, 0], [1, 0]]}),
+        "two keys, one of them twice": ([cirq.X(q[0]), cirq.X(q[2])], [cirq.measure(q[0], key="a"), cirq.measure(*q, key="b"), cirq.measure(q[1], key="a")], {"a": [[1], [0]], "b": [[1, 0, 1]]}),
+    }
+    cases, fails = 0, []
+    for (sname, mk), (lname, (prep, meas, want)), tail, reps in itertools.product(sims, layouts.items(), (False, True), (0, 1, 2, 4, 5)):
+        c = cirq.Circuit(prep, [cirq.Moment(m) for m in meas], [cirq.I(q[0])] if tail else [])
+        cases += 1
+        args = dict(simulator=sname, layout=lname, measurements_are_terminal=not tail, repetitions=reps)
+        try:
+            r = mk().run(c, repetitions=reps)
+            rs = mk().run_sweep(c, params=[{}], repetitions=reps)[0]
+        except Exception as ex:
+            fails.append(dict(args=args, failed="run-records-raised", clause=f"{ex!r}"))
+            continue
+        problem = None
+        for k, inst in want.items():
+            for label, res in (("run", r), ("run_sweep", rs)):
+                got = res.records.get(k)
+                if got is None or got.shape != (reps, len(inst), len(inst[0])):
+                    problem = problem or f"{label}: records[{k!r}] has shape {None if got is None else got.shape}, expected {(reps, len(inst), len(inst[0]))}"
+                elif got.astype(int).tolist() != [inst] * reps:
+                    problem = problem or f"{label}: records[{k!r}] = {got.astype(int).tolist()}, every repetition should read {inst}"
+        if problem is None and reps:
+            try:
+                joined = r + mk().run(c, repetitions=0)
+                if any(joined.records[k].shape != r.records[k].shape for k in want):
+                    problem = "adding a zero-repetition result of the same circuit changes the shapes"
+            except Exception as ex:
+                problem = f"a zero-repetition result of the same circuit cannot be added to this one: {ex!r}"
+        if problem:
+            fails.append(dict(args=args, failed="run-records", clause=problem))
+    seen, uniq = set(), []
+    for f_ in fails:
+        key = (f_["args"]["simulator"], f_["args"].get("measurements_are_terminal"), f_["args"].get("repetitions") == 0)
+        if key not in seen:
+            seen.add(key)
+            uniq.append(f_)
+    return dict(function=F_, case="run-record-shapes", bound="3 simulators x 3 layouts of repeated keys x terminal / non-terminal x 0, 1, 2, 4, 5 repetitions (deterministic circuits)",
+                cases=cases, distinct=cases, failures=len(uniq), exhaustive=True, _fails=uniq[:4])
+standin_run_record_shapes.prop = "C18"
+
+STANDINS = [standin_views, standin_numpy_digits, standin_state_histogram, standin_large_results, standin_packed_storage, standin_sample_frames, standin_batches, standin_vendor_counts, standin_run_record_shapes]
